@@ -1,5 +1,6 @@
 import ClockBound.Properties.CodeTieSeqlock
 import ClockBound.Properties.CodeTieHeader
+import ClockBound.Properties.CodeTieWriterNew
 open ClockBound
 #print axioms CodeTieSeqlock.write_eq
 #print axioms CodeTieSeqlock.write_record_eq
@@ -17,3 +18,7 @@ open ClockBound
 #print axioms HeaderProg.readHeader_eq_prog
 #print axioms HeaderProg.readerOpenLim_eq_prog
 #print axioms HeaderProg.readHeader_full
+#print axioms CodeTieWriterNew.new_eq
+#print axioms CodeTieWriterNew.new_ops_script
+#print axioms WriterNewProg.script_split
+#print axioms WriterNewProg.newOps_script
